@@ -418,6 +418,11 @@ class Program:
                 args = [f(a) for a in node.args]
                 if fn.attr in ("keys", "values", "items"):
                     return list(getattr(recv, fn.attr)())
+                if isinstance(recv, str) and fn.attr == "join" and env is not None and env.get("__strict__"):
+                    try:
+                        return recv.join(*args)
+                    except TypeError as ex_:
+                        raise EvalError(f"`{unparse(node)[:60]}` raises TypeError ({ex_})")
                 if isinstance(recv, str):
                     if fn.attr == "format":
                         kw_ = {k.arg: f(k.value) for k in node.keywords if k.arg is not None}
